@@ -5,6 +5,7 @@ package main
 import (
 	"encoding/base64"
 	"fmt"
+	"math/big"
 	"net/http"
 	"strings"
 	"time"
@@ -96,6 +97,19 @@ func runC07(em *vEmitter, r *vRng) {
 		"alice:true:abc", "alice:true:", "alice:true", "alice", "", "alice:true:" + fmt.Sprint(now) + ":extra", "alice:true:+" + fmt.Sprint(now),
 		"alice:true: " + fmt.Sprint(now), ":true:" + fmt.Sprint(now), "al\nice:false:" + fmt.Sprint(now),
 	}
+	// timestamps whose distance from now, expressed in nanoseconds, wraps around 2^64 (or 2^63)
+	// into the lifetime window: an age computed in a wrapping integer type would accept them
+	for k := int64(1); k <= 15; k++ {
+		wrap := new(big.Int).Div(new(big.Int).Mul(big.NewInt(k), new(big.Int).Lsh(big.NewInt(1), 64)), big.NewInt(1000000000)).Int64()
+		half := new(big.Int).Div(new(big.Int).Mul(big.NewInt(k), new(big.Int).Lsh(big.NewInt(1), 63)), big.NewInt(1000000000)).Int64()
+		for _, w := range []int64{wrap, half} {
+			for _, d := range []int64{1, lifeS / 2, lifeS - 1} {
+				chosen = append(chosen, fmt.Sprintf("alice:true:%d", now-w-d), fmt.Sprintf("alice:true:%d", now+w-d),
+					fmt.Sprintf("alice:true:%d", now-w+d), fmt.Sprintf("alice:true:%d", now+w+d))
+			}
+		}
+		chosen = append(chosen, fmt.Sprintf("alice:true:%d", now-k*(1<<55)-lifeS/2), fmt.Sprintf("alice:true:%d", now+k*(1<<55)-lifeS/2))
+	}
 	var sealedChosen []c07Entry
 	for _, pt := range chosen {
 		sealedChosen = append(sealedChosen, A.seal(pt))
@@ -103,6 +117,16 @@ func runC07(em *vEmitter, r *vRng) {
 
 	var pres []c07Pres
 	add := func(t, c string) { pres = append(pres, c07Pres{t, c}) }
+	// tokens that expire between two presentations of the same string
+	expiring := []c07Entry{A.seal(fmt.Sprintf("alice:true:%d", time.Now().Unix()-lifeS+4)), A.seal(fmt.Sprintf("bob:false:%d", time.Now().Unix()-lifeS+4))}
+	for _, e := range expiring {
+		add(e.text, "expiring/first-use")
+		add(e.text, "expiring/first-use")
+	}
+	add("", "sleep")
+	for _, e := range expiring {
+		add(e.text, "expiring/after-expiry")
+	}
 	for _, e := range valid {
 		add(e.text, "issued")
 	}
@@ -224,6 +248,10 @@ func runC07(em *vEmitter, r *vRng) {
 		classes := map[string]int{}
 		accepted := 0
 		for _, p := range pres[start:end] {
+			if p.class == "sleep" {
+				time.Sleep(6 * time.Second)
+				continue
+			}
 			nowNs := time.Now().UnixNano()
 			var st int
 			var user string
